@@ -173,12 +173,37 @@ func execHistory(enc *json.Encoder, t int, ops []fmOp) {
 				}
 				fg = st.indexOf(fresh.ResolveFace(rune(op.R)))
 			}()
-			enc.Encode(fmEvent{"t": t, "ev": "Resolve", "r": op.R, "got": got, "fresh": fg})
+			// fact: is the substitution-expanded family list of the query just the query itself? (the documented
+			// priority is specified for that case; with generic or substituted families only the other laws are judged)
+			plain := true
+			{
+				cr := fontscan.VerifCrible(st.query.Families, st.script) // also without a query: default families are appended
+				want := map[string]bool{}
+				for _, f := range st.query.Families {
+					want[font.NormalizeFamily(f)] = true
+					if fontscan.VerifIsGeneric(f) {
+						plain = false
+					}
+				}
+				// only substitutes that name a family present in the map matter
+				for _, a := range st.added {
+					fam := font.NormalizeFamily(a.op.Fam)
+					if _, in := cr[fam]; in && !want[fam] {
+						plain = false
+					}
+				}
+			}
+			enc.Encode(fmEvent{"t": t, "ev": "Resolve", "r": op.R, "got": got, "fresh": fg, "plain": plain})
 		}
 	}
 }
 
 var fmFams = []string{"vfalpha", "vfbeta", "vfgamma"}
+
+// families with entries in the substitution tables: fonts named like a substitute, queries naming
+// the substituted family or a generic one
+var fmSubFams = []string{"Nimbus Sans", "DejaVu Serif", "Liberation Serif"}
+var fmSubQueries = []string{"Helvetica", "serif", "sans-serif", "Times New Roman", "monospace", "Arial"}
 var fmScripts = []string{"Latn", "Cyrl", "Hebr", "Hani", "none"}
 var fmUniverse = []int{'a', 'b', 'я', 'א', '漢', '1'}
 var fmAspects = []cssAspect{{1000, 1, 400}, {1000, 2, 400}, {1000, 1, 700}, {750, 1, 300}, {1250, 2, 900}}
@@ -186,6 +211,7 @@ var fmAspects = []cssAspect{{1000, 1, 400}, {1000, 2, 400}, {1000, 1, 700}, {750
 func randHistory(rng *rand.Rand, steps int) []fmOp {
 	var ops []fmOp
 	nadd := 0
+	subs := rng.Intn(3) == 0 // a third of the histories use generic / substituted families
 	add := func() {
 		var rs []int
 		for _, r := range fmUniverse {
@@ -201,7 +227,11 @@ func randHistory(rng *rand.Rand, steps int) []fmOp {
 				a.W = 700
 			}
 		}
-		ops = append(ops, fmOp{Op: "AddFace", Fam: fmFams[rng.Intn(len(fmFams))], Asp: &a, Runes: rs, Ttf: rng.Intn(2) == 0})
+		fam := fmFams[rng.Intn(len(fmFams))]
+		if subs && rng.Intn(2) == 0 {
+			fam = fmSubFams[rng.Intn(len(fmSubFams))]
+		}
+		ops = append(ops, fmOp{Op: "AddFace", Fam: fam, Asp: &a, Runes: rs, Ttf: rng.Intn(2) == 0})
 		nadd++
 	}
 	ops = append(ops, fmOp{Op: "SetCache", K: []int{0, 1, 2, 4096}[rng.Intn(4)]})
@@ -216,7 +246,11 @@ func randHistory(rng *rand.Rand, steps int) []fmOp {
 			k := 1 + rng.Intn(3)
 			var fams []string
 			for j := 0; j < k; j++ {
-				fams = append(fams, fmFams[rng.Intn(len(fmFams))])
+				if subs && rng.Intn(2) == 0 {
+					fams = append(fams, fmSubQueries[rng.Intn(len(fmSubQueries))])
+				} else {
+					fams = append(fams, fmFams[rng.Intn(len(fmFams))])
+				}
 			}
 			a := cssAspect{}
 			if rng.Intn(2) == 0 {
